@@ -139,6 +139,53 @@ static void exact_fit(int level, int gz, int cpu, int kind)
 	v_nontrivial(v_hash(ctxdesc, strlen(ctxdesc), 5));
 }
 
+/* flush requests that cannot complete at once: a first segment of some KiB ends with a completed FULL_FLUSH (so the match tables are
+ * full of positions from before the flush point); the next segment starts with a SHORT call that carries FULL_FLUSH / SYNC_FLUSH and
+ * has so little output space that it returns with the flush pending; then the output is drained in small pieces, with or without
+ * further input, and finally generously. Every completed flush point is checked as usual, FULL-flush suffixes are decoded on their
+ * own at the end, and the stream object sits directly behind an inaccessible page every other run. */
+static void pending_flush(int level, int gz, int cpu, int kind)
+{
+	enum { XL = 60000 };
+	static const int as[] = { 3000, 9000, 40000 }, bs[] = { 1, 100, 1000, 2047, 2048, 8191 }, os[] = { 1, 10, 100 }, cs[] = { 0, 500 }, o2s[] = { 10, -1 };
+	if (!DST) {
+		DST = g_persist(sizeof *DST, G_END);
+		DLB = g_persist(ISAL_DEF_LVL3_MIN, G_END);
+	}
+	if (kind)
+		for (int i = 0; i < XL; i++) /* 16-byte rows from 11 round-robin channels */
+			LIN[i] = (uint8_t)("chan00 chan01 chan02 chan03 chan04 chan05 chan06 chan07 chan08 chan09 chan10 "[((i / 16) % 11) * 7 + (i % 16 < 6 ? i % 16 : 6)] + (i % 16 >= 7 ? (i / 176 + i % 16) % 3 : 0));
+	else
+		fill_pattern(LIN, XL, PAT_LOG, 14);
+	DIN = LIN; DINLEN = XL; DLEVEL = level; DGZ = gz; DLBS = lvl_min[level];
+	cpu_set_level(cpu);
+	for (int ai = 0; ai < 3; ai++)
+		for (int bi = 0; bi < 6; bi++)
+			for (int oi = 0; oi < 3; oi++)
+				for (int ci = 0; ci < 2; ci++)
+					for (int o2 = 0; o2 < 2; o2++)
+						for (int fl = 1; fl < 3; fl++) {
+							if (nfail > 20)
+								return;
+							snprintf(ctxdesc, sizeof ctxdesc, "pending-flush input=%s:%d level=%d wrapper=%s cpu=%s first-segment=%d+FULL_FLUSH then call(in=%d,out=%d,%s) then calls(in=%d,out=%d)", kind ? "channel-rows" : "log", XL,
+								 level, gz_name[gz], cpu_level_name[cpu], as[ai], bs[bi], os[oi], flush_name[fl], cs[ci], o2s[o2]);
+							g_strict_free = 1;
+							def_reset(8);
+							ex_depth = 0;
+							int r = def_call(as[ai], -1, FULL_FLUSH, 0, NULL);
+							if (r == EX_NEXT)
+								r = def_call(bs[bi], os[oi], fl, 0, NULL);
+							for (int k = 0; k < 40 && r == EX_NEXT; k++)
+								r = def_call(cs[ci], o2s[o2], k < 3 ? fl : NO_FLUSH, 0, NULL);
+							if (r == EX_NEXT || r == EX_SKIP)
+								def_finish_generously(NULL, 12);
+							g_strict_free = 0;
+							v_eval();
+							v_count("pending_flush_runs", 1);
+						}
+	v_nontrivial(v_hash(ctxdesc, strlen(ctxdesc), 6));
+}
+
 static void stateless_pairs(void)
 {
 	static uint8_t A[9000], B[9000], outA[20000], outB[20000], cat[40000], both[18000];
@@ -283,6 +330,7 @@ int main(int argc, char **argv)
 					if (nfail > 20 || v_deadline_hit())
 						break;
 					exact_fit(level, (level + kind + ci) % 2 ? IGZIP_GZIP : IGZIP_DEFLATE, cpus[ci], kind);
+					pending_flush(level, (level + kind + ci) % 2 ? IGZIP_DEFLATE : IGZIP_ZLIB, cpus[ci], kind);
 				}
 	}
 	if (!v_part || !strcmp(v_part, "stateless"))
